@@ -119,8 +119,18 @@ fn run_aasm_file(
         vm.set_script_path(path.display().to_string());
     }
 
+    // assembly carries no manifest of its own: the project manifest next to the file applies,
+    // as it does for a source file
+    let manifest = Manifest::for_source_file(path);
     let required_modules = collect_required_modules(&function);
-    load_required_modules(&mut vm, path, src, &required_modules, None, &HashMap::new())?;
+    load_required_modules(
+        &mut vm,
+        path,
+        src,
+        &required_modules,
+        manifest.as_ref(),
+        &HashMap::new(),
+    )?;
 
     let remap = vm.merge_heap(&mut heap).map_err(|err| err.to_string())?;
     function.remap_constants(&remap);
@@ -139,9 +149,11 @@ fn run_avbc_file(
     let (mut function, mut heap, manifest_bytes, bundles) =
         aelys_bytecode::asm::deserialize_with_manifest(&bytes).map_err(|err| err.to_string())?;
 
+    // a bytecode file without an embedded manifest is still subject to the project
+    // manifest next to it
     let manifest = match manifest_bytes.as_deref() {
         Some(bytes) => Some(Manifest::from_bytes(bytes).map_err(|err| err.to_string())?),
-        None => None,
+        None => Manifest::for_source_file(path),
     };
 
     let bundled_modules: HashMap<String, aelys_bytecode::asm::NativeBundle> =
